@@ -177,15 +177,58 @@ class RegexProxy:
         self.pattern = pattern
         self.tree = rx.sre_parse.parse(pattern)
 
-    def match(self, s):
+    def match(self, s, pos=0):
+        if isinstance(s, str):
+            return re.compile(self.pattern).match(s, pos)
         c = pysym.ctx()
-        for cond, end in rx.match_alternatives(self.tree, s.chars, 0):
+        for cond, end in rx.match_alternatives(self.tree, s.chars, pos):
             cond = z3.simplify(cond)
             if z3.is_false(cond):
                 continue
             if c.fork(cond):
-                return rx.SymMatch(s[:end])
+                return rx.SymMatch(s[pos:end], pos, end)
         return None
+
+
+class proxied_tokenizer:
+    """Context manager: every compiled pattern the tokenizer module holds -- the rows of
+    REGEX_TOKEN_PATTERNS and any module-level `re.Pattern` -- is replaced by a symbolic proxy, and the
+    module's string constants are registered so that a symbolic string can be looked up in sets of them."""
+
+    def __enter__(self):
+        self.saved = {"REGEX_TOKEN_PATTERNS": tokenizer.REGEX_TOKEN_PATTERNS}
+        tokenizer.REGEX_TOKEN_PATTERNS = [PatProxy(p) for p in tokenizer.REGEX_TOKEN_PATTERNS]
+        consts = set()
+
+        def collect(v, depth=0):
+            if isinstance(v, str):
+                consts.add(v)
+            elif isinstance(v, (set, frozenset, list, tuple)) and depth < 3:
+                for x in v:
+                    collect(x, depth + 1)
+            elif isinstance(v, dict) and depth < 3:
+                for k, x in v.items():
+                    collect(k, depth + 1)
+                    collect(x, depth + 1)
+
+        for name, v in list(vars(tokenizer).items()):
+            if isinstance(v, re.Pattern):
+                self.saved[name] = v
+                try:
+                    setattr(tokenizer, name, RegexProxy(v.pattern))
+                except rx.Unsupported:
+                    pass
+            elif not name.startswith("__"):
+                collect(v)
+        self.saved_consts = symstr.KNOWN_CONSTANTS
+        symstr.KNOWN_CONSTANTS = sorted(consts)
+        return self
+
+    def __exit__(self, *a):
+        for name, v in self.saved.items():
+            setattr(tokenizer, name, v)
+        symstr.KNOWN_CONSTANTS = self.saved_consts
+        return False
 
 
 class PatProxy:
@@ -313,7 +356,13 @@ FAMILIES = {
     "operators": "=!<>&|+-*.?:,()[] ",
     "strings": "\"\\na #-",
     "docs": "- #a",
+    "after keyword": "azAZ09_$ (.",
 }
+
+
+# whitespace that may lead a line: space, tab, and two characters that are whitespace for str.lstrip() and \\s
+# but do not end a line for str.splitlines() (U+001F, U+00A0)
+INDENT_CHARS = " \t\x1f\xa0"
 
 
 def family_cond(chars, c):
@@ -327,10 +376,18 @@ def run_line(job):
     doc = DocTokenizer()
     fam_chars = FAMILIES[fam]
     holder = {}
-    saved = tokenizer.REGEX_TOKEN_PATTERNS
-    tokenizer.REGEX_TOKEN_PATTERNS = [PatProxy(p) for p in saved]
+    proxies = proxied_tokenizer()
+    proxies.__enter__()
     try:
         def body(c):
+            if first is not None and len(first) > 1:
+                # a concrete prefix (a keyword) followed by L free characters of the family
+                tail = SymStr.fresh("c", L)
+                for ch in tail.chars:
+                    c.assume(family_cond(fam_chars, ch))
+                s = SymStr([z3.IntVal(ord(x)) for x in first] + tail.chars)
+                holder["s"] = s
+                return tokenizer._tokenize_line(s, 1, "f.emb")
             s = SymStr.fresh("c", L)
             holder["s"] = s
             for ch in s.chars:
@@ -389,27 +446,27 @@ def run_line(job):
             out["unknown"] += 1
         out["solver_queries"] = st_.queries
     finally:
-        tokenizer.REGEX_TOKEN_PATTERNS = saved
+        proxies.__exit__()
     return out
 
 
 def run_indent(job):
     """('indent', lengths tuple, bodies tuple): prefixes of the given lengths with symbolic
-    characters over {space, tab}, fixed bodies."""
+    characters over INDENT_CHARS, fixed bodies."""
     _, lens, bodies = job
     out = {"job": [job[0], list(lens), list(bodies)], "paths": 0, "obligations": 0, "discharged": 0, "candidates": [], "unknown": 0,
            "errors_seen": 0, "tokens_seen": 0}
     doc = DocTokenizer()
     holder = {}
-    saved = tokenizer.REGEX_TOKEN_PATTERNS
-    tokenizer.REGEX_TOKEN_PATTERNS = [PatProxy(p) for p in saved]
+    proxies = proxied_tokenizer()
+    proxies.__enter__()
     try:
         def body(c):
             lines = []
             for i, (n, b) in enumerate(zip(lens, bodies)):
                 pre = SymStr.fresh("p%d" % i, n)
                 for ch in pre.chars:
-                    c.assume(family_cond(" \t", ch))
+                    c.assume(family_cond(INDENT_CHARS, ch))
                 lines.append(pre + b)
             holder["lines"] = lines
             return tokenizer.tokenize(SymText(lines), "f.emb")
@@ -453,7 +510,7 @@ def run_indent(job):
         if not complete:
             out["unknown"] += 1
     finally:
-        tokenizer.REGEX_TOKEN_PATTERNS = saved
+        proxies.__exit__()
     return out
 
 
@@ -553,6 +610,10 @@ def main(tier):
     for fam, L in fam_len:
         for first in sorted(set(FAMILIES[fam])):
             jobs.append(("line", fam, L, first))
+    # every keyword / `$` builtin of the literal table followed by free characters (is the longer word one token?)
+    for lit in tokenizer.LITERAL_TOKEN_PATTERNS:
+        if len(lit) > 1 and (lit[0] == "$" or lit[0].isalpha()):
+            jobs.append(("line", "after keyword", 2 if tier == "quick" else 3, lit))
     ind = [("indent", lens, bodies) for lens in itertools.product(lens_space, repeat=nlines)
            for bodies in itertools.product(bodies_space, repeat=nlines)]
     if tier == "quick":
@@ -613,7 +674,7 @@ def main(tier):
         "functions_encoded": ["tokenizer._tokenize_line", "tokenizer.tokenize", "tokenizer.REGEX_TOKEN_PATTERNS / LITERAL_TOKEN_PATTERNS (as data)"],
         "bounds": {"pattern table": "all strings (language equivalence)",
                    "lines": "every line of exactly L characters over each family: " + ", ".join(sorted(per)),
-                   "indentation": "%d lines, leading whitespace of 0..%d characters over {space, tab}, bodies from ('a', '#c', '')" % (nlines, max(lens_space)),
+                   "indentation": "%d lines, leading whitespace of 0..%d characters over {space, tab, U+001F, U+00A0}, bodies from ('a', '#c', '')" % (nlines, max(lens_space)),
                    "outside": "longer lines; characters outside the families; Unicode terminators are exercised concretely"},
     })
     return rep.finish()
